@@ -163,6 +163,27 @@ Proof. exact channels_last_legacy_refuted. Qed.
 Theorem C19_channels_first_legacy_partial : forall c h w, (c <= h)%Z -> (c <= w)%Z -> channels_first_legacy c h w = true.
 Proof. exact channels_first_legacy_partial. Qed.
 
+(* ------------------------------------------------------------------ load_image(torch_style) per rank *)
+(* a monochrome file (two axes) comes back (H, W) whatever torch_style says: values and shape *)
+Theorem C19_torch_style_gray : forall A ts (m : list (list A)),
+  torch_style_view ts (Gray m) = Gray m /\ image_shape (torch_style_view ts (Gray m)) = image_shape (Gray m).
+Proof. exact (fun A ts m => conj (torch_style_gray A ts m) (torch_style_shape_gray A ts m)). Qed.
+Theorem C19_torch_style_off : forall A (i : image A), torch_style_view false i = i.
+Proof. exact torch_style_off. Qed.
+(* (H, W, C) comes back as (C, H, W), and moving the axis back gives the image *)
+Theorem C19_torch_style_color : forall A H W C (m : list (list (list A))), cube H W C m -> (1 <= H)%nat -> (1 <= W)%nat ->
+  torch_style_view true (Color m) = Color (hwc_to_chw C m) /\ chw_to_hwc H W (hwc_to_chw C m) = m.
+Proof. exact torch_style_color. Qed.
+Theorem C19_torch_style_color_shape : forall A H W C (m : list (list (list A))), cube H W C m -> (1 <= H)%nat -> (1 <= W)%nat -> (1 <= C)%nat ->
+  image_shape (torch_style_view true (Color m)) = [C; H; W].
+Proof. exact torch_style_shape_color. Qed.
+(* save, then load with either torch_style (normalizeby is the value map inj): the view of what was saved *)
+Theorem C19_image_rt_full : forall (A B F : Type) (q : A -> B) (inj : B -> A) (imwrite : image B -> F) (imread : F -> option (image B)),
+  (forall i, shape_ok i = true -> imread (imwrite i) = Some (canon i)) ->
+  forall ts (i : image A), shape_ok i = true -> (forall a, in_image a i -> inj (q a) = a) ->
+  load_image_full inj imread ts (save_image_model A B F q imwrite i) = Some (torch_style_view ts (canon i)).
+Proof. exact image_rt_full. Qed.
+
 (* ------------------------------------------------------------------ non-vacuity *)
 (* concrete instances meet the hypotheses and are computed through: lines with trailing blanks and
    non-ASCII text down to bytes; a 1 x 2 RGB 16-bit image through a codec meeting the contract; a
@@ -176,5 +197,9 @@ Example C19_instance :
   /\ copy_file_model 1 2 [(1, [104; 105])]%Z = Copied [(1, [104; 105]); (2, [104; 105])]%Z
   /\ read_ply_model (write_ply_model (fun z : Z => z) [((1, 2, 3), (4, 5, 6), (7, 8, 9)); ((1, 2, 3), (0, 0, 0), (7, 8, 9))]%Z)
      = Some [((1, 2, 3), (4, 5, 6), (7, 8, 9)); ((1, 2, 3), (0, 0, 0), (7, 8, 9))]%Z
-  /\ torch_to_numpy channels_first [[[1; 2]]; [[3; 4]]; [[5; 6]]]%Z = [[[1; 3; 5]; [2; 4; 6]]]%Z.
+  /\ torch_to_numpy channels_first [[[1; 2]]; [[3; 4]]; [[5; 6]]]%Z = [[[1; 3; 5]; [2; 4; 6]]]%Z
+  /\ load_image_full (fun z : Z => z) Some true (save_image_model Z Z (image Z) (quant_level true 8) canon (Color [[[1]; [2]; [3]]; [[4]; [5]; [6]]]))%Z
+     = Some (Gray [[1; 2; 3]; [4; 5; 6]])%Z
+  /\ load_image_full (fun z : Z => z) Some true (save_image_model Z Z (image Z) (quant_level true 8) canon (Color [[[1; 2; 3]; [4; 5; 6]]]))%Z
+     = Some (Color [[[1; 4]]; [[2; 5]]; [[3; 6]]])%Z.
 Proof. vm_compute. repeat split; reflexivity. Qed.
